@@ -1020,6 +1020,9 @@ impl SctpInner {
             }
             if let DtlsState::Failed | DtlsState::Closed = state {
                 debug!("DTLS failed or closed before SCTP start");
+                // Same reasons as the running loop's DTLS arm, so the owner can report why.
+                let reason = if state == DtlsState::Failed { "DTLS_FAILED" } else { "DTLS_CLOSED" };
+                *self.close_reason.lock() = Some(reason.into());
                 return;
             }
             if dtls_state_rx.changed().await.is_err() {
